@@ -19,3 +19,4 @@ import Pms.Props.C19
 #print axioms Pms.AuxIo.C19_additions_slices
 #print axioms Pms.AuxIo.C19_log_sections
 #print axioms Pms.AuxIo.C19_log_count
+#print axioms Pms.AuxIo.C19_log_incomplete
